@@ -285,6 +285,11 @@ func lockKey(p *Ptr) string {
 }
 
 func (m *Machine) lockOp(st *State, fr *Frame, instr ssa.Instruction, mu *Ptr, mode int) {
+	if held := st.locks[lockKey(mu)]; held != 0 && (held == 2 || mode == 2) && !st.pure {
+		// sync mutexes are not reentrant: this goroutine would wait for itself (typically after a missing Unlock)
+		m.recordObl(st, fr, "guard", fmt.Sprintf("selflock.%s.%d", mu.Path, m.ordinal(fr.fn, instr, "")), m.ctx.F, append([]string{"C10", "C11"}, m.safeTagsFor(fr.fn)...),
+			fmt.Sprintf("%s is not acquired while this goroutine already holds it (self-deadlock)", mu.Path), false)
+	}
 	st.locks[lockKey(mu)] = mode
 	m.addEvent(st, map[int]string{1: "rlock", 2: "lock"}[mode], []Value{mu}, nil)
 	// guarded fields of the owner may have been changed by other goroutines
